@@ -252,6 +252,92 @@ Section Model.
     | c :: t' => if is_shy c then i :: shy_indexes t' (S i) else shy_indexes t' (S i)
     end.
 
+  (* step 3, the look-ahead to the next word: either a final outcome or the state handed to steps 4-5 *)
+  Definition lookahead (collapse : bool) (t flt slt : text) (bp : option Z)
+             (Lay : layout) (fl : Z * Q) (ri : option Z) : outcome + (layout * (Z * Q) * option Z) :=
+    let next_word := rstrip (py_slice_to slt bp) in
+    let flt_nonempty := match flt with [] => false | _ => true end in
+    (* the look-ahead; result: either a final outcome or the state for steps 4-5 *)
+      match next_word with
+      | [] => if flt_nonempty then inl (first_line_metrics fl t Lay ri collapse false)
+              else inr (Lay, fl, ri)
+      | _ :: _ =>
+          let idx := match bp with Some z => if z =? 0 then -1 else z | None => -1 end in
+          match py_index slt idx with
+          | None => inl (Raise 2)
+          | Some c =>
+              if collapse && is_sp c then
+                let nflt := flt ++ next_word in
+                let Lay' := set_text Lay nflt in
+                let '(fl', ri') := first Lay' in
+                match ri' with
+                | None =>
+                    if flt_nonempty then
+                      inl (first_line_metrics fl' t Lay' (Some (nbytes nflt + 1)) collapse false)
+                    else
+                      let r := fst fl' + 1 in
+                      inr (Lay', fl', if nbytes t <=? r then None else Some r)
+                | Some _ => inr (Lay', fl', ri')
+                end
+              else inr (Lay, fl, ri)
+          end
+      end.
+
+  (* steps 4 (hyphens: manual) and 5 (break inside the word) *)
+  Definition steps45 (st : style) (mw : Q) (pwm : option Q) (is_line_start minimum : bool)
+             (t flt slt : text) (Lay : layout) (fl : Z * Q) (ri : option Z) : outcome :=
+    let collapse := space_collapse (st_ws st) in
+    (* step 4, hyphens: manual *)
+    let manual := st_hyph_manual st && has_ch is_shy (flt ++ slt) in
+    let '(flt, slt) := if manual && ends_with is_shy flt then ([], flt) else (flt, slt) in
+    let idx := if manual then rev (shy_indexes slt O) else [] in
+    let s4 : layout * (Z * Q) * option Z * bool :=
+      match idx with
+      | [] => (Lay, fl, ri, false)
+      | _ :: _ =>
+          match hyph_loop st mw pwm flt slt idx (last idx O) with
+          | (Some (NL, nfl, r), _, _) => (NL, nfl, Some r, true)
+          | (None, nflt, hflt) =>
+              match flt with
+              | [] =>
+                  let Lay' := set_width (set_text Lay hflt) None in
+                  let '(fl', _) := first Lay' in
+                  let r := nbytes nflt in
+                  let r := match t with c :: _ => if is_shy c then r + 2 else r | [] => r end in
+                  (Lay', fl', Some r, true)
+              | _ :: _ => (Lay, fl, ri, false)
+              end
+          end
+      end in
+    let '(Lay, fl, ri, hyphenated) := s4 in
+    let s4b : layout * (Z * Q) * option Z * bool :=
+      if negb hyphenated && ends_with is_shy flt then
+        let Lay' := set_width (set_text Lay (flt ++ [Hy])) None in
+        let '(fl', _) := first Lay' in
+        (Lay', fl', Some (nbytes flt), true)
+      else (Lay, fl, ri, hyphenated) in
+    let '(Lay, fl, ri, hyphenated) := s4b in
+    (* step 5 *)
+    let can_break :=
+      st_break_all st ||
+      (is_line_start && match st_ow st with
+                        | OwAnywhere => true
+                        | OwBreakWord => negb minimum
+                        | OwNormal => false
+                        end) in
+    if negb (Qle_bool (snd fl) mw) && can_break then
+      let u := Qtrunc ((if Qle_bool 0 mw then mw else 0) * (1024 # 1))%Q in
+      let Lay' := {| l_text := truncate t;
+                     l_w := Some (u # 1024);
+                     l_wc := true |} in
+      let '(fl', index) := first Lay' in
+      let r := match index with
+               | Some i => if i =? 0 then fst fl' else i
+               | None => fst fl'
+               end in
+      first_line_metrics fl' t Lay' (if nbytes t <=? r then None else Some r) collapse false
+    else first_line_metrics fl t Lay ri collapse hyphenated.
+
   (* steps 2-5, once step 1 has chosen the text, the draft layout and its first line *)
   Definition after_step1 (st : style) (mw : Q) (pwm : option Q) (is_line_start minimum : bool)
              (t short : text) (Lay : layout) (fl : Z * Q) (ri : option Z) : outcome :=
@@ -283,87 +369,9 @@ Section Model.
           match bp_res with
           | None => Raise 3
           | Some bp =>
-              let next_word := rstrip (py_slice_to slt bp) in
-              let flt_nonempty := match flt with [] => false | _ => true end in
-              (* the look-ahead; result: either a final outcome or the state for steps 4-5 *)
-              let after3 : outcome + (layout * (Z * Q) * option Z) :=
-                match next_word with
-                | [] => if flt_nonempty then inl (first_line_metrics fl t Lay ri collapse false)
-                        else inr (Lay, fl, ri)
-                | _ :: _ =>
-                    let idx := match bp with Some z => if z =? 0 then -1 else z | None => -1 end in
-                    match py_index slt idx with
-                    | None => inl (Raise 2)
-                    | Some c =>
-                        if collapse && is_sp c then
-                          let nflt := flt ++ next_word in
-                          let Lay' := set_text Lay nflt in
-                          let '(fl', ri') := first Lay' in
-                          match ri' with
-                          | None =>
-                              if flt_nonempty then
-                                inl (first_line_metrics fl' t Lay' (Some (nbytes nflt + 1)) collapse false)
-                              else
-                                let r := fst fl' + 1 in
-                                inr (Lay', fl', if nbytes t <=? r then None else Some r)
-                          | Some _ => inr (Lay', fl', ri')
-                          end
-                        else inr (Lay, fl, ri)
-                    end
-                end in
-              match after3 with
+              match lookahead collapse t flt slt bp Lay fl ri with
               | inl o => o
-              | inr (Lay, fl, ri) =>
-                  (* step 4, hyphens: manual *)
-                  let manual := st_hyph_manual st && has_ch is_shy (flt ++ slt) in
-                  let '(flt, slt) := if manual && ends_with is_shy flt then ([], flt) else (flt, slt) in
-                  let idx := if manual then rev (shy_indexes slt O) else [] in
-                  let s4 : layout * (Z * Q) * option Z * bool :=
-                    match idx with
-                    | [] => (Lay, fl, ri, false)
-                    | _ :: _ =>
-                        match hyph_loop st mw pwm flt slt idx (last idx O) with
-                        | (Some (NL, nfl, r), _, _) => (NL, nfl, Some r, true)
-                        | (None, nflt, hflt) =>
-                            match flt with
-                            | [] =>
-                                let Lay' := set_width (set_text Lay hflt) None in
-                                let '(fl', _) := first Lay' in
-                                let r := nbytes nflt in
-                                let r := match t with c :: _ => if is_shy c then r + 2 else r | [] => r end in
-                                (Lay', fl', Some r, true)
-                            | _ :: _ => (Lay, fl, ri, false)
-                            end
-                        end
-                    end in
-                  let '(Lay, fl, ri, hyphenated) := s4 in
-                  let s4b : layout * (Z * Q) * option Z * bool :=
-                    if negb hyphenated && ends_with is_shy flt then
-                      let Lay' := set_width (set_text Lay (flt ++ [Hy])) None in
-                      let '(fl', _) := first Lay' in
-                      (Lay', fl', Some (nbytes flt), true)
-                    else (Lay, fl, ri, hyphenated) in
-                  let '(Lay, fl, ri, hyphenated) := s4b in
-                  (* step 5 *)
-                  let can_break :=
-                    st_break_all st ||
-                    (is_line_start && match st_ow st with
-                                      | OwAnywhere => true
-                                      | OwBreakWord => negb minimum
-                                      | OwNormal => false
-                                      end) in
-                  if negb (Qle_bool (snd fl) mw) && can_break then
-                    let u := Qtrunc ((if Qle_bool 0 mw then mw else 0) * (1024 # 1))%Q in
-                    let Lay' := {| l_text := truncate t;
-                                   l_w := Some (u # 1024);
-                                   l_wc := true |} in
-                    let '(fl', index) := first Lay' in
-                    let r := match index with
-                             | Some i => if i =? 0 then fst fl' else i
-                             | None => fst fl'
-                             end in
-                    first_line_metrics fl' t Lay' (if nbytes t <=? r then None else Some r) collapse false
-                  else first_line_metrics fl t Lay ri collapse hyphenated
+              | inr (Lay, fl, ri) => steps45 st mw pwm is_line_start minimum t flt slt Lay fl ri
               end
           end
       end.
